@@ -185,6 +185,13 @@ func main() {
 			if err != nil {
 				vlib.Die("UnmarshalOpener(patched): %v", err)
 			}
+			// the caller reuses its buffers: a restored context must own its state
+			for i := range ms {
+				ms[i] = 0xee
+			}
+			for i := range mo {
+				mo[i] = 0xee
+			}
 			seqs := func() ([]byte, []byte) {
 				a, e1 := sealer.MarshalBinary()
 				c, e2 := opener.MarshalBinary()
@@ -267,6 +274,9 @@ func main() {
 							if err == nil {
 								sealer = s2
 							}
+							for i := range m { // the buffer is wiped / reused after the restore
+								m[i] = 0x11
+							}
 						}
 						e.Ok = err == nil
 					} else {
@@ -276,6 +286,9 @@ func main() {
 							o2, err = hpke.UnmarshalOpener(m)
 							if err == nil {
 								opener = o2
+							}
+							for i := range m {
+								m[i] = 0x11
 							}
 						}
 						e.Ok = err == nil
